@@ -92,9 +92,10 @@ Definition key_len (k : key) : N := snd k.
 
 (* ---------- the provisos ---------- *)
 (* at any two moments, equal (dev, ino, ms as the cache computes it, len) => equal content *)
-Definition stamp_determines (ws : list world) : Prop :=
-  forall w1 w2 id i1 i2, In w1 ws -> In w2 ws -> inode_of w1 id = Some i1 -> inode_of w2 id = Some i2 ->
+Definition stamp_det2 (os ws : list world) : Prop :=
+  forall w1 w2 id i1 i2, In w1 os -> In w2 ws -> inode_of w1 id = Some i1 -> inode_of w2 id = Some i2 ->
     code_ms (i_mtime i1) = code_ms (i_mtime i2) -> nlen (i_data i1) = nlen (i_data i2) -> i_data i1 = i_data i2.
+Definition stamp_determines (ws : list world) : Prop := stamp_det2 ws ws.
 
 (* the same with the real millisecond mtime: the wording of the property *)
 Definition mtime_determines (ws : list world) : Prop :=
@@ -235,7 +236,7 @@ Proof.
   destruct G as [P (d' & Ht & G)]. split; auto. exists d'. rewrite <- S. auto.
 Qed.
 
-Lemma origin_valid cs ws c : stamp_determines ws -> tree_faithful cs -> Inv cs ws c -> entries_valid cs ws c.
+Lemma origin_valid cs os ws c : stamp_det2 os ws -> tree_faithful cs -> Inv cs os c -> entries_valid cs ws c.
 Proof.
   intros Hs Ht Hi t k e Hin a tr Ia Et w i Iw Ei Em El.
   unfold Inv in Hi. rewrite Forall_forall in Hi. specialize (Hi _ Hin).
@@ -277,11 +278,11 @@ Proof.
     unfold good, key_pos, key_len. cbn [fst snd e_h e_dl]. subst d. split; reflexivity.
 Qed.
 
-Lemma hash_cached_same cs ws a tr c w cl :
-  stamp_determines ws -> tree_faithful cs -> Inv cs ws c -> In w ws -> In (a, tr) cs -> c_io cl = IoOk ->
+Lemma hash_cached_same cs os ws a tr c w cl :
+  stamp_det2 os ws -> tree_faithful cs -> Inv cs os c -> In w ws -> In (a, tr) cs -> c_io cl = IoOk ->
   fst (hash_cached H T a tr c w cl) = hash_plain H T a tr w cl.
 Proof.
-  intros Hs Ht Hi Iw Ia Hf. pose proof (origin_valid _ _ _ Hs Ht Hi) as Hv.
+  intros Hs Ht Hi Iw Ia Hf. pose proof (origin_valid _ _ _ _ Hs Ht Hi) as Hv.
   unfold hash_cached, hash_plain, raw_fails, tr_fails. rewrite Hf.
   destruct tr as [cf|].
   - destruct (negb (c_pos cl =? 0)) eqn:Ep; [reflexivity|].
@@ -319,13 +320,13 @@ Proof.
   apply IH; auto. apply hash_cached_inv; auto.
 Qed.
 
-Lemma run_cached_same {R} cs ws a tr (p : prog R) : stamp_determines ws -> tree_faithful cs ->
-  forall c w, Inv cs ws c -> In w ws -> In (a, tr) cs -> nofail p ->
+Lemma run_cached_same {R} cs os ws a tr (p : prog R) : stamp_det2 os ws -> tree_faithful cs ->
+  forall c w, Inv cs os c -> In w os -> In w ws -> In (a, tr) cs -> nofail p ->
   fst (run_cached H T a tr p c w) = run_plain H T a tr p w.
 Proof.
-  intros Hs Ht. induction p as [r|cl k IH]; intros c w Hi Iw Ia Hn; cbn [run_cached run_plain fst]; [reflexivity|].
+  intros Hs Ht. induction p as [r|cl k IH]; intros c w Hi Io Iw Ia Hn; cbn [run_cached run_plain fst]; [reflexivity|].
   cbn [nofail] in Hn. destruct Hn as [Hf Hk].
-  rewrite (hash_cached_same cs ws); auto.
+  rewrite (hash_cached_same cs os ws); auto.
   apply IH; auto. apply hash_cached_inv; auto.
 Qed.
 
